@@ -542,6 +542,77 @@ func runC07(r *vk.Run) {
 			c.Sample("rewrite", map[string]any{"query": text, "first_record": ds.Recs[0]})
 		}
 	})
+	// long runs: dozens of records in a row whose template fails at run time (a division by a label that is 0,
+	// a pattern taken from a label), then records for which it works. Each record is rewritten (or flagged)
+	// as it is when evaluated alone, however many failures came before it
+	r.Phase("failruns", r.N(40, 2000), func(c *vk.Case) {
+		rng := c.Rng
+		k := rng.Range(33, 70)
+		good := rng.Range(2, 8)
+		var recs []Rec
+		for i := 0; i < k+good; i++ {
+			v, re := "0", "("
+			if i >= k || (i > 3 && i < k && rng.Chance(1, 40) && false) {
+				v, re = fmt.Sprint(rng.Range(1, 9)), "[aeiou]"
+			}
+			if i == 0 && rng.Bool() {
+				v, re = "5", "o" // the run of failures may start after a record that worked
+			}
+			recs = append(recs, Rec{TS: logT0 + int64(i+1)*1e9, Line: fmt.Sprintf("total=100 seq=%d", i), Labels: map[string]string{"app": "x", "parts": v, "re": re}})
+		}
+		stage := vk.Pick(rng, []string{
+			`| line_format "{{ div 100 (int .parts) }} per part"`,
+			`| label_format share="{{ div 100 (int .parts) }}"`,
+			`| line_format "{{ regexReplaceAll .re __line__ \"_\" }}"`,
+			`| label_format a="{{ div 7 (int .parts) }}", b="{{ .app }}-{{ .parts }}"`,
+			`| line_format "{{ .parts | int | div 50 }}{{ __line__ }}"`,
+		})
+		query := `{app="x"} ` + stage + ` | drop msg`
+		type one struct {
+			labels map[string]string
+			line   string
+		}
+		alone := map[int64]one{}
+		for _, rec := range recs {
+			if _, done := alone[rec.TS]; done {
+				continue
+			}
+			res, err := evalQuery(&MemQuerier{Recs: []Rec{rec}, ErrAfter: -1}, query, logRangeParams(len(recs)+1))
+			c.Eval(1)
+			if err != nil || len(res.Streams) != 1 || len(res.Streams[0].Entries) != 1 {
+				c.Fail("", fmt.Sprintf("%s over one record: err=%v, %d streams", query, err, len(res.Streams)), map[string]any{"query": query, "record": rec})
+				return
+			}
+			alone[rec.TS] = one{without(res.Streams[0].Labels, "__error_details__"), res.Streams[0].Entries[0].Line}
+		}
+		res, err := evalQuery(&MemQuerier{Recs: recs, ErrAfter: -1}, query, logRangeParams(len(recs)+1))
+		c.Eval(1)
+		det := map[string]any{"query": query, "failing_records_in_a_row": k, "records": len(recs)}
+		if err != nil {
+			c.Fail("", query+" failed: "+err.Error(), det)
+			return
+		}
+		seen := 0
+		for _, st := range res.Streams {
+			for _, e := range st.Entries {
+				seen++
+				want, ok := alone[e.TS]
+				got := without(st.Labels, "__error_details__")
+				if !ok || e.Line != want.line || !mapsEqual(got, want.labels) {
+					det["record_ts"], det["alone_line"], det["alone_labels"], det["in_run_line"], det["in_run_labels"] = e.TS, want.line, want.labels, e.Line, got
+					c.Fail("", fmt.Sprintf("%s: record #%d gives line %q labels %s when evaluated alone, but line %q labels %s after %d failing records", query, (e.TS-logT0)/1e9-1, want.line, labelKey(want.labels), e.Line, labelKey(got), k), det)
+					return
+				}
+			}
+		}
+		if seen != len(recs) {
+			c.Fail("", fmt.Sprintf("%s: %d of %d records returned", query, seen, len(recs)), det)
+			return
+		}
+		c.Count("failrun_records_compared", seen)
+		c.Nontrivial(fmt.Sprintf("failruns|%d", c.Idx))
+	})
+	r.Require("failrun_records_compared", 1000)
 	r.Require("stage:label_format-rename", 300)
 	r.Require("stage:label_format-template", 300)
 	r.Require("stage:label_format-mixed", 50)
